@@ -23,8 +23,8 @@ pub const DEF: PropDef = PropDef {
 pub const SUBS: &[SubDef] = &[SubDef { prop: "C14", name: "lists", oracle: lists }, SubDef { prop: "C14", name: "overlong", oracle: overlong }];
 
 fn run(ctx: &Ctx) {
-    ctx.run_tape("lists", lists, ctx.pick(8_000, 400_000), 400);
-    ctx.run_tape("overlong", overlong, ctx.pick(8_000, 400_000), 400);
+    ctx.run_tape("lists", lists, ctx.pick(120_000, 400_000), 400);
+    ctx.run_tape("overlong", overlong, ctx.pick(120_000, 400_000), 400);
 }
 
 type Got = Result<(usize, usize, Vec<MSct>), String>;
